@@ -26,7 +26,7 @@ CLAIMS["C08"] = {
             "accessors; read-after-write and consistency over every history of writes (induction). Tied to "
             "src/state/memory.rs by a differential run over boundary (address, length) pairs, areas ending at 2^64 and write histories.",
     "design_ref": "DESIGN.md section 7, C08",
-    "note": COMMON_NOTE + "Allocation failure for huge lengths is outside the model.",
+    "note": COMMON_NOTE + "Allocation failure for huge lengths is outside the model. Instruction level (C08Instr): exec_mov_store, exec_mov_load, store_then_load from decoded instructions.",
     "technique": "Lean 4 proof (byte-map refinement, invariants by induction over histories) + model-vs-code differential correspondence",
 }
 CLAIMS["C09"] = {
@@ -87,7 +87,7 @@ CLAIMS["C17"] = {
     "text": "Lean theorems about init_stack_program_start for every argv/envp/length/layout: result memory well-formed and overlap-free, strings "
             "copied NUL-terminated into fresh areas in order, frame slot arithmetic, RSP 16-byte aligned, stack_top = RSP, requested space below "
             "RSP up to 48 bytes padding; frame_contents / frame_pops: the slots above RSP hold argc, the argv pointers (the addresses of the copies), 0, the envp pointers, 0 in this order and the load each POP performs returns them one after the other. POPs are also executed on model and implementation.",
-    "design_ref": "DESIGN.md section 7, C17", "note": COMMON_NOTE + "That the loads of the POPs succeed (the slots are readable stack memory) is observed by the correspondence run.",
+    "design_ref": "DESIGN.md section 7, C17", "note": COMMON_NOTE + "That the loads of the POPs succeed (the slots are readable stack memory) is observed by the correspondence run. init_never_panics / initStack_never_panics for every total size below 2^63; frame_contents / frame_pops.",
     "technique": "Lean 4 proof (invariants, arithmetic by omega, bv_decide for the alignment mask) + differential correspondence executing POPs",
 }
 CLAIMS["C18"] = {
@@ -107,7 +107,7 @@ CLAIMS["C01"] = {
             "against their arithmetic definitions; ALU result values; every instruction leaves control state and segment bases untouched; "
             "the model implements the 312 pinned forms. " + _NATIVE + "Per-form operand plumbing is sampled, not proved.",
     "design_ref": "DESIGN.md section 7, C01",
-    "note": COMMON_NOTE + "Known finding C01-idiv64-divisor-sign (IDIV r/m64 treats the divisor as unsigned; the pinned suite encodes it).",
+    "note": COMMON_NOTE + "Known finding C01-idiv64-divisor-sign (IDIV r/m64 treats the divisor as unsigned; the pinned suite encodes it). End to end through the dispatch table: exec_rmR64_regs (every r/m64,r64 row on register operands) and its instances add/sub/cmp/mov_r64_r64, mov_r32_r32, add_r32_r32_value.",
     "technique": "Lean 4 proof (bv_decide/omega over the instruction model) + three-way differential correspondence (code, model, real CPU)",
     "category": "proof",
 }
@@ -122,7 +122,7 @@ CLAIMS["C03"] = {
     "text": "Lean theorems: after CMP d,s the condition predicates decide exactly the architectural unsigned/signed comparisons, for all operands "
             "at all widths and all incoming flags; conditions read only CF/PF/ZF/SF/OF; RIP after every direct branch form is target-if-taken else "
             "next_ip; JRCXZ/JECXZ test RCX/ECX; CALL goes to its target. " + _NATIVE,
-    "design_ref": "DESIGN.md section 7, C03", "note": COMMON_NOTE,
+    "design_ref": "DESIGN.md section 7, C03 Two instructions end to end: cmp_then_jl / cmp_then_jb.", "note": COMMON_NOTE,
     "technique": "Lean 4 proof (condition semantics via bv_decide composed with the CMP flag theorem) + three-way differential correspondence",
 }
 CLAIMS["C04"] = {
